@@ -319,7 +319,11 @@ fn exec_write(
 
     // Capacity check, mirroring shim::std::fs::File::write_at_internal.
     let current_len = fs.file_len(&path);
-    let write_end = offset + len as u64;
+    // `offset` comes straight from the SQE: an end past u64::MAX is an
+    // invalid request, not a reason to panic inside the completion path.
+    let Some(write_end) = offset.checked_add(len as u64) else {
+        return -EINVAL;
+    };
     let additional = write_end.saturating_sub(current_len);
     if additional > 0 && fs.check_space(additional).is_err() {
         return -ENOSPC;
